@@ -99,7 +99,14 @@ func runSeq(r *hlib.Rec, seq []int, mode string, conc int) {
 	rs := &hlib.RunSpec{Mode: mode, Quiet: true, CompletionTimeout: time.Second,
 		Opts: options.RunOptions{MaxDuration: 10 * time.Second, Concurrency: conc, MaxIterations: uint64(len(seq)), IgnoreDropped: true}}
 	if mode == "constant" {
-		rs.Flags = map[string]string{"rate": fmt.Sprintf("%d/100ms", conc), "distribution": "none"}
+		perTick := conc
+		if len(seq) > 20 {
+			perTick = len(seq) / 10 // long sequences: ten ticks (bodies take no time, nothing is dropped)
+		}
+		rs.Flags = map[string]string{"rate": fmt.Sprintf("%d/100ms", perTick), "distribution": "none"}
+	}
+	if len(seq) > 20 {
+		input = fmt.Sprintf("mode=%s concurrency=%d behaviours=%s x %d, then pass and %s alternating", mode, conc, names[0], len(seq)-6, names[0])
 	}
 	rs.ScenarioFn = func(t *f1testing.T) f1testing.RunFn {
 		scenarioT = t
@@ -303,11 +310,31 @@ func suiteOverlap() hlib.Suite {
 	}}
 }
 
+// suiteLong: the worker survives and classifies correctly however often it happens: one behaviour 130 (thorough 1100)
+// times in a row on one worker, then passing and failing iterations alternating.
+func suiteLong(n int) hlib.Suite {
+	return hlib.Suite{Name: fmt.Sprintf("one-worker/one-behaviour-%d-times-then-alternating", n), Run: func(r *hlib.Rec) {
+		for b := range behaviours {
+			for _, mode := range []string{"constant", "users"} {
+				if !r.Mine() || r.Expired() {
+					continue
+				}
+				var seq []int
+				for i := 0; i < n; i++ {
+					seq = append(seq, b)
+				}
+				seq = append(seq, 0, b, 0, b, 0, b) // behaviour 0 passes
+				runSeq(r, seq, mode, 1)
+			}
+		}
+	}}
+}
+
 func suites(tier string) []hlib.Suite {
 	if tier == "quick" {
-		return []hlib.Suite{suiteOneWorker(3), suiteTwoWorkers(), suiteOverlap()}
+		return []hlib.Suite{suiteOneWorker(3), suiteTwoWorkers(), suiteOverlap(), suiteLong(130)}
 	}
-	return []hlib.Suite{suiteOneWorker(4), suiteTwoWorkers(), suiteOverlap()}
+	return []hlib.Suite{suiteOneWorker(4), suiteTwoWorkers(), suiteOverlap(), suiteLong(130), suiteLong(1100)}
 }
 
 func main() { hlib.EnumMain("C07", suites) }
